@@ -258,7 +258,7 @@ for n, w in (("c13_mp_one", "mpmc, one receiver handle"), ("c13_mp_two_handles",
 # ---- blocking receive
 W = "scen_wait"
 WRULES = queue_rules(retry=4, extra=[(r'BlockingWait.*::wait', 3), (r'BusyWait.*::wait', 16), (r'YieldingWait.*::wait', 12),
-                                      (r'InnerRecv.*::recv', 4), (r'cv_wait_impl', 5)])
+                                      (r'InnerRecv.*::recv_view', 4), (r'InnerRecv.*::recv', 4), (r'cv_wait_impl', 5)])
 for n, w in (("c08_mp_blk00_send", "mpmc BlockingWait(0,0): blocked recv vs one send"),
              ("c08_bc_blk00_senddrop", "broadcast BlockingWait(0,0): blocked recv vs send + drop of the last sender"),
              ("c08_mp_blk00_drop", "mpmc BlockingWait(0,0): blocked recv vs drop of the last sender"),
